@@ -322,6 +322,56 @@ def build_effective(world, cwd_abs):
 
 # ---------------------------------------------------------------- execution
 
+SECOND_FS = "/dev/shm"          # tmpfs here; a temp directory on another file system than the sandbox
+OTHER = "@tmpfs"                # name of that directory inside snapshots and in the model's file system
+ENV_DIRS = {"TMPDIR": "_env/tmp", "HOME": "_env/home", "XDG_CACHE_HOME": "_env/xdg/cache", "XDG_CONFIG_HOME": "_env/xdg/config",
+            "XDG_DATA_HOME": "_env/xdg/data", "XDG_STATE_HOME": "_env/xdg/state", "XDG_RUNTIME_DIR": "_env/xdg/run"}
+
+
+def second_fs_dir(world):
+    """A fresh directory on a file system different from the world's, or None (reported in the evidence)."""
+    import tempfile
+    try:
+        if not os.path.isdir(SECOND_FS) or os.stat(SECOND_FS).st_dev == os.stat(world).st_dev:
+            return None
+        return tempfile.mkdtemp(prefix="c16-", dir=SECOND_FS)
+    except OSError:
+        return None
+
+
+def watched_env(world, other_tmp):
+    """Every place a process may pick for scratch or per-user files points into watched directories:
+    inside the world (same file system as the output directory) or, for TMPDIR, on the second file system."""
+    env = dict(vlib.ENV)
+    for var, rel in ENV_DIRS.items():
+        d = os.path.join(world, rel)
+        os.makedirs(d, exist_ok=True)
+        env[var] = d
+    for var in ("TMP", "TEMP", "TEMPDIR"):
+        env.pop(var, None)
+    if other_tmp:
+        env["TMPDIR"] = other_tmp
+    return env
+
+
+def run_proc(argv, cwd, env, timeout=120):
+    try:
+        r = subprocess.run(argv, cwd=cwd, env=env, timeout=timeout, stdin=subprocess.DEVNULL,
+                           stdout=subprocess.PIPE, stderr=subprocess.STDOUT)
+        return r.returncode, r.stdout.decode("utf-8", "replace")
+    except subprocess.TimeoutExpired:
+        return -1, "TIMEOUT"
+
+
+def snapshot_all(world, other_tmp):
+    snap = snapshot(world)
+    if other_tmp:
+        snap[OTHER] = None
+        for k, v in snapshot(other_tmp).items():
+            snap[OTHER + "/" + k] = v
+    return snap
+
+
 def sub(world, s):
     return s.replace(WORLD, world) if isinstance(s, str) else s
 
@@ -355,7 +405,10 @@ def reference(sb, world, cwd_abs, variant, p_str, lib, viz, cache):
         return cache[key]
     ref = sb.path("ref", "r%d" % len(cache))
     argv = ["generate", "-p", p_str, "-o", ref, "-v", lib, "--force"] + (["--visualize-deps"] if viz else [])
-    st, out = sb.cli(argv, cwd=cwd_abs)
+    env = dict(vlib.ENV)
+    env["TMPDIR"] = sb.path("reftmp")
+    os.makedirs(env["TMPDIR"], exist_ok=True)
+    st, out = run_proc([vlib.REPO_BIN, "tauri-typegen"] + argv, cwd_abs, env)
     k = {}
     if st == 0 and os.path.isdir(ref):
         for n in os.listdir(ref):
@@ -379,20 +432,32 @@ class ScenarioError(Exception):
 
 
 def execute(sc):
+    other = None
     try:
         with vlib.Sandbox("c16") as sb:
-            return execute_in(sb, sc)
+            if sc.get("tmpdir") == "other":
+                os.makedirs(sb.path("w"))
+                other = second_fs_dir(sb.path("w"))
+            res = execute_in(sb, sc, other)
+            res["tmp_other_fs"] = bool(other)
+            res["tmp_fallback"] = sc.get("tmpdir") == "other" and not other
+            return res
     except ScenarioError as e:
         return {"machinery_error": "%s: %s" % (sc.get("name"), e)}
     except Exception as e:                                   # reported per scenario, never silently dropped
         import traceback
         return {"error": "%s\n%s" % (e, traceback.format_exc()[-1500:])}
+    finally:
+        if other:
+            import shutil
+            shutil.rmtree(other, ignore_errors=True)
 
 
-def execute_in(sb, sc):
+def execute_in(sb, sc, other_tmp=None):
     try:
         world = sb.path("w")
-        os.makedirs(world)
+        os.makedirs(world, exist_ok=True)
+        env = watched_env(world, other_tmp)
         cwd_abs = os.path.join(world, sc["cwd"])
         os.makedirs(cwd_abs, exist_ok=True)
         src_dir = os.path.join(world, sc["proj_dir"], "src")
@@ -460,14 +525,12 @@ def execute_in(sb, sc):
                 raise ValueError("reference generation produced nothing")
             return res
         pre = analysis(eff) if entry != "init" else None
-        before = snapshot(world)
+        before = snapshot_all(world, other_tmp)
         if entry == "build":
-            r = subprocess.run([vlib.harness_bin("c16"), "build1"], cwd=cwd_abs, env=vlib.ENV, timeout=120,
-                               stdin=subprocess.DEVNULL, stdout=subprocess.PIPE, stderr=subprocess.STDOUT)
-            status, output = r.returncode, r.stdout.decode("utf-8", "replace")
+            status, output = run_proc([vlib.harness_bin("c16"), "build1"], cwd_abs, env)
         else:
-            status, output = sb.cli(cli_args(world, entry, a), cwd=cwd_abs)
-        after = snapshot(world)
+            status, output = run_proc([vlib.REPO_BIN, "tauri-typegen"] + cli_args(world, entry, a), cwd_abs, env)
+        after = snapshot_all(world, other_tmp)
         st = {"entry": entry, "before": before, "after": after, "diff": diff(before, after), "status": status,
               "output": output, "detected": detected}
         if entry == "init":
@@ -616,7 +679,7 @@ def structured_scenarios(rng, count):
                 r["args"] = {}
             runs.append(r)
         scs.append({"name": "structured-%d-%s" % (i, lname), "cwd": cwd, "proj_dir": proj_dir, "dirs": sorted(set(dirs)),
-                    "files": files, "runs": runs})
+                    "files": files, "runs": runs, "tmpdir": "other" if rng.random() < 0.35 else "same"})
     return scs
 
 
@@ -671,6 +734,23 @@ def sweep_scenarios():
             files["app/" + n] = "beside " + n
         scs.append({"name": "sweep-systematic-elsewhere-%s" % e, "cwd": "app", "proj_dir": "app/src-tauri", "dirs": [],
                     "files": files, "runs": runs})
+    # effects outside the obvious places: the same generations with TMPDIR on another file system, and failing
+    # runs (a foreign directory under the name of each written file) with TMPDIR on either file system
+    for e in ("generate", "build"):
+        args = {"p": "./src-tauri", "o": "./gen", "viz": True} if e == "generate" else {}
+        for variant in ("cmds", "events"):
+            for tmp in ("same", "other"):
+                scs.append({"name": "sweep-tmpdir-%s-%s-%s" % (tmp, variant, e), "cwd": "app", "proj_dir": "app/src-tauri", "dirs": [],
+                            "files": {"app/tauri.conf.json": conf, "app/gen/user.ts": "user"}, "tmpdir": tmp,
+                            "runs": [{"entry": e, "variant": variant, "args": args},
+                                     {"entry": e, "variant": None, "args": dict(args, force=True) if e == "generate" else args},
+                                     {"entry": e, "variant": "cmds2", "args": args}]})
+        for blocked in RESERVED_OWN:
+            for tmp in ("same", "other"):
+                scs.append({"name": "sweep-blocked-%s-%s-%s" % (blocked, tmp, e), "cwd": "app", "proj_dir": "app/src-tauri",
+                            "dirs": ["app/gen/" + blocked], "tmpdir": tmp,
+                            "files": {"app/tauri.conf.json": conf, "app/gen/" + blocked + "/keep.ts": "kept"},
+                            "runs": [{"entry": e, "variant": "events", "args": args}, {"entry": e, "variant": None, "args": args}]})
     return scs
 
 
